@@ -23,14 +23,14 @@ PROP = 'C08'
 LEVEL = 'translation_validation'
 TIMEOUT_MS = 30000
 
-PATTERNS = ['free', 'ge0', 'le0', 'lo', 'hi', 'both', 'fix0', 'fixnz', 'lo0hi', 'lohi0']
+PATTERNS = ['free', 'ge0', 'le0', 'lo', 'hi', 'both', 'fix0', 'fixnz', 'lo0hi', 'lohi0', 'hineg', 'lopos', 'bothneg', 'bothpos']
 
 META = dict(
     functions=['rsome.lp.Model.do_math(primal=False)', 'rsome.socp.Model.do_math(primal=False)',
                'rsome.gcp.Model.do_math(primal=False) (no exp/LMI blocks)', 'rsome.ro.Model.do_math(primal=False)'],
     rule='one case = one model (bound-pattern tuple x row configuration, SOC member, or ro member); non-trivial = '
          'primal feasible and bounded (exact optimiser) so that the precondition of the property holds; distinct by name',
-    bounds='LP: <= 3 variables, every tuple of the 10 bound patterns for 2 variables (quick) / 3 variables (thorough, '
+    bounds='LP: <= 3 variables, every tuple of the 14 bound patterns for 2 variables (quick) / 3 variables (thorough, '
            'seeded subset), 1-3 rows mixing <=, >=, ==; SOC: norm-2/sumsqr/rsocone members with shared cone variables; '
            'ro: members of the C01 core family with LP/SOC counterparts',
     outside='exponential-cone and LMI dual blocks (gcp.py:314-373): need the conjugate of exp; not decidable here',
@@ -65,6 +65,14 @@ def lp_desc(spec):
                 m.st(x[i] >= 0, x[i] <= 3.0)
             elif p == 'lohi0':
                 m.st(x[i] >= -3.0, x[i] <= 0)
+            elif p == 'hineg':
+                m.st(x[i] <= -0.5)
+            elif p == 'lopos':
+                m.st(x[i] >= 0.5)
+            elif p == 'bothneg':
+                m.st(x[i] >= -3.0, x[i] <= -1.0)
+            elif p == 'bothpos':
+                m.st(x[i] >= 1.0, x[i] <= 3.0)
         for (a, s, b) in rows:
             e = (np.array(a, dtype=float) * x).sum()
             m.st(e <= b if s == 'le' else (e >= b if s == 'ge' else e == b))
@@ -115,7 +123,8 @@ def ro_desc(name):
     return build
 
 
-RO_MEMBERS = ['static-box', 'static-box-zero-lb', 'static-norm1', 'ldr-full', 'static-ball', 'static-lifted', 'min-forall']
+RO_MEMBERS = ['static-box', 'static-box-zero-lb', 'static-box-zero-ub', 'static-box-negative', 'static-norm1', 'ldr-full',
+              'static-ball', 'static-lifted', 'min-forall']
 
 
 def cases(tier, seed, rnd):
